@@ -3,6 +3,7 @@ package main
 import (
 	"bufio"
 	"bytes"
+	"fmt"
 	"os"
 	"path/filepath"
 	"regexp"
@@ -97,8 +98,8 @@ func vectors(g *GenCtx) {
 		for i := range key {
 			key[i] = byte(i)
 		}
-		g.Op("new")
-		g.Op("init %s - -", HexOrDash(key))
+		script := []string{"new", fmt.Sprintf("init %s - -", HexOrDash(key))}
+		add := func(format string, a ...any) { script = append(script, fmt.Sprintf(format, a...)) }
 		var prev []byte
 		for _, line := range strings.Split(string(raw), "\n") {
 			m := reLine.FindStringSubmatch(line)
@@ -108,20 +109,21 @@ func vectors(g *GenCtx) {
 			val := spacedHex(m[3])
 			switch m[1] {
 			case "absorb":
-				g.Op("absorb %s", HexOrDash(val))
+				add("absorb %s", HexOrDash(val))
 			case "squeeze":
 				n, _ := strconv.Atoi(m[2])
 				if len(val) > 0 {
-					g.Op("sq %d =%s", n, HexOrDash(val))
+					add("sq %d =%s", n, HexOrDash(val))
 				} else {
-					g.Op("sq %d", n)
+					add("sq %d", n)
 				}
 			case "encrypt-ir", "encrypt-ri":
 				prev = val
 			case "decrypt-ir", "decrypt-ri":
-				g.Op("enc %s =%s", HexOrDash(prev), HexOrDash(val))
+				add("enc %s =%s", HexOrDash(prev), HexOrDash(val))
 			}
 		}
+		g.Op("new ; %s", strings.Join(script, " ; "))
 	}
 }
 
@@ -284,10 +286,9 @@ func run(in *bufio.Scanner, out *bufio.Writer) {
 	p := pair{cyclist.NewCyclist(), cyclist.NewCyclist()}
 	for in.Scan() {
 		f := strings.Fields(in.Text())
-		f, expect := StripExpect(f)
-		res := p.exec(f)
-		if expect != "" && res != "bad-op" && res != expect {
-			res += " !vector"
+		res, script := Script(f, p.exec)
+		if !script {
+			res = ExecExpect(f, p.exec)
 		}
 		out.WriteString(res)
 		out.WriteByte('\n')
